@@ -4,10 +4,12 @@
  * evdns_base_load_hosts).  Plain C, no libevent code, no strtok/strtol: every
  * scanner below walks the bytes itself.
  *
- * Numbers.  An integer option value is what strtol(3) base 10 accepts for the
+ * Numbers.  An integer option value is what strtol(3) base 10 reads from the
  * WHOLE string (optional white space, optional sign, digits; the empty string
  * reads as 0 like atoi), *saturated* to the range of int; the value -1 is the
  * error sentinel of the option code and is rejected, as is any other text.
+ * The text->long conversion itself is libc's strtol (the harness hands the
+ * same (value, end) pair to the code and to this reference).
  * A time value is a finite number of seconds d with 0 <= d <= INT_MAX
  * (tv_sec = trunc(d), tv_usec = trunc((d - tv_sec) * 10^6)), at least 1 ms; the
  * text->double conversion itself is libc's strtod (not modelled here: the
@@ -39,35 +41,23 @@
 static int dcr_isspace(char c) { return c == ' ' || (c >= 9 && c <= 13); }
 static int dcr_isblank(char c) { return c == ' ' || c == '\t'; }
 
-static int dcr_digit(char c) { return (c >= '0' && c <= '9') ? c - '0' : 99; }
-/* integer value: 1 = ok (*out set), 0 = malformed */
-static int dcr_int_ex(const char *s, int *out, int *beyond_int);
-static int dcr_int(const char *s, int *out) { int b; return dcr_int_ex(s, out, &b); }
-/* the same, also telling whether the decimal value lies outside the range of int (and was saturated) */
-static int dcr_int_ex(const char *s, int *out, int *beyond_int)
+/* integer value from what strtol(3) reported for the text: `lv` the value read, `whole` = the whole text was
+ * consumed (an empty text is consumed whole and reads as 0).  1 = ok (*out set), 0 = malformed. */
+static int dcr_int_ex(long lv, int whole, int *out, int *beyond_int)
 {
-	size_t i = 0; int neg = 0, nd = 0; unsigned long long v = 0; long long r;
-	while (dcr_isspace(s[i])) i++;
-	if (s[i] == '+' || s[i] == '-') { neg = s[i] == '-'; i++; }
-	while (dcr_digit(s[i]) < 10) {
-		if (nd < 15) v = v * 10 + (unsigned long long)dcr_digit(s[i]);   /* 15 digits fit; */
-		else v = 1ULL << 60;                                 /* more digits: certainly beyond int */
-		i++; nd++;
-	}
 	*beyond_int = 0;
-	if (!nd) { if (s[0] != 0) return 0; *out = 0; return 1; }   /* "" reads as 0 (atoi); other digit-less text is malformed */
-	if (s[i]) return 0;
-	r = neg ? -(long long)v : (long long)v;
-	if (r > INT_MAX) { r = INT_MAX; *beyond_int = 1; }
-	if (r < INT_MIN) { r = INT_MIN; *beyond_int = 1; }
-	if (r == -1) return 0;
-	*out = (int)r;
+	if (!whole) return 0;
+	if (lv > INT_MAX) { lv = INT_MAX; *beyond_int = 1; }
+	if (lv < INT_MIN) { lv = INT_MIN; *beyond_int = 1; }
+	if (lv == -1) return 0;
+	*out = (int)lv;
 	return 1;
 }
-static int dcr_int_clipped(const char *s, int lo, int hi, int *out)
+static int dcr_int(long lv, int whole, int *out) { int b; return dcr_int_ex(lv, whole, out, &b); }
+static int dcr_int_clipped(long lv, int whole, int lo, int hi, int *out)
 {
 	int v;
-	if (!dcr_int(s, &v)) return 0;
+	if (!dcr_int(lv, whole, &v)) return 0;
 	*out = v < lo ? lo : v > hi ? hi : v;
 	return 1;
 }
@@ -134,10 +124,10 @@ struct dcr_conf {
 	unsigned tcp_flags;        /* bit 0 use-vc, bit 1 ignore-tc */
 	int bound;                 /* bind-to address accepted: +1 per accepted bind-to */
 };
-/* Apply one option.  `d` is the double libc's strtod produced for `val`, `d_whole` says that strtod consumed the
- * whole of `val`; `addr_ok` says that the address parser accepted `val` (bind-to).  Returns the documented result
+/* Apply one option.  `lv`/`l_whole`: what libc's strtol reported for `val` (value, whole text consumed); `d`/`d_whole`:
+ * the same for strtod; `addr_ok` says that the address parser accepted `val` (bind-to).  Returns the documented result
  * (0 / -1) and updates *c. */
-static int dcr_set_option(struct dcr_conf *c, const char *option, const char *val, int flags, double d, int d_whole, int addr_ok)
+static int dcr_set_option(struct dcr_conf *c, const char *option, const char *val, int flags, long lv, int l_whole, double d, int d_whole, int addr_ok)
 {
 	int k = dcr_opt_find(option), v = 0;
 	long s = 0, u = 0;
@@ -145,8 +135,8 @@ static int dcr_set_option(struct dcr_conf *c, const char *option, const char *va
 	if (k == DCR_NOPTS) return 0;
 	o = &dcr_opts[k];
 	switch (o->kind) {
-	case DCR_INT: case DCR_INT_MAX255: if (!dcr_int(val, &v)) return -1; if (o->kind == DCR_INT_MAX255 && v > 255) v = 255; break;
-	case DCR_CLIP: if (!dcr_int_clipped(val, o->lo, o->hi, &v)) return -1; break;
+	case DCR_INT: case DCR_INT_MAX255: if (!dcr_int(lv, l_whole, &v)) return -1; if (o->kind == DCR_INT_MAX255 && v > 255) v = 255; break;
+	case DCR_CLIP: if (!dcr_int_clipped(lv, l_whole, o->lo, o->hi, &v)) return -1; break;
 	case DCR_TIME: case DCR_TIME_MAX3600:
 		if (!d_whole || !dcr_timeval(d, &s, &u)) return -1;
 		if (o->kind == DCR_TIME_MAX3600 && s > 3600) s = 3600;
